@@ -276,7 +276,7 @@ def plant_container_level(doc, dia, r):
                     # unterminated list / table: assume the delimiter where its absence is noticed
                     opened = (e[2][0], e[2][1], False)
                     yield ("missing_delim/" + tag, with_elems(doc, path, elems[:k] + [("item", e[1], ("mark", opened))] + elems[k + 1:]), doc, 136,
-                           {"hi_after_value": True}, None)
+                           {"hi_after_value": True, "die": truncate_before(doc, path, k)}, None)   # reported while the value is parsed
             if e[0] == "loop":
                 names, packets = e[1], e[2]
                 scalars = [n for n in names_of(elems[:k]) if n not in names]
@@ -581,7 +581,7 @@ def die_request(label, planted, truncated, code, opts, dia, r, mfd, style="lines
     mi = marks[0]
     last_line = 1 + text.count("\n")
     lo = spans[mi][3]
-    hi = spans[mi + 1][4] if mi + 1 < len(spans) else last_line
+    hi = spans[mi + 1][4] if mi + 1 < len(spans) and not opts.get("hi_after_value") else last_line
     note = ["DIE", label, str(code), str(lo), str(hi), "X"] + expected_dump(truncated, dia).split(" ")[1:]
     return make_request("parse", text, dia=dia, mfd=opts.get("mfd", mfd), policy="d", note=note)
 
